@@ -112,7 +112,7 @@ def check_protocol_table(ui: int, cl: bool, te: bool, pri: int, trail: int, sett
 # ------------------------------------------------------------------ openings
 
 OPENINGS = ["ALPN h2", "prior-knowledge preface", "h2c upgrade", "h2c upgrade + follow-up stream in the same flight", "websocket upgrade", "plain HTTP/1.1", "h2c upgrade with a body (ignored)",
-            "plain HTTP/1.1 x2 pipelined"]
+            "plain HTTP/1.1 x2 pipelined", "h2c upgrade with an empty HTTP2-Settings value", "h2c upgrade without an HTTP2-Settings header", "h2c upgrade with non-default settings (small window)"]
 
 
 class _App:
@@ -160,9 +160,14 @@ def _opening_bytes(oi: int):
         c.data(3, b"payload", end_stream=True)
         st["h2"] = c
         return c.take(), st
-    if oi in (2, 3):
-        c = H2Client(upgrade=True)
-        req = h1_request("GET", b"/up", [(b"Host", b"example.com"), (b"Connection", b"Upgrade, HTTP2-Settings"), (b"Upgrade", b"h2c"), (b"HTTP2-Settings", _h2c_settings_header(c))])
+    if oi in (2, 3, 8, 9, 10):
+        c = H2Client(upgrade=True, initial_window=20 if oi == 10 else None)
+        hs = [(b"Host", b"example.com"), (b"Connection", b"Upgrade, HTTP2-Settings"), (b"Upgrade", b"h2c")]
+        if oi == 8:
+            hs.append((b"HTTP2-Settings", b""))
+        elif oi != 9:
+            hs.append((b"HTTP2-Settings", _h2c_settings_header(c)))
+        req = h1_request("GET", b"/up", hs)
         st["h2"] = c
         data = req
         if oi == 3:
@@ -196,20 +201,21 @@ def _run_opening(oi: int, cuts, flavour: str):
     obs = {"versions": [s["http_version"] + ":" + s["type"] for s in app.scopes], "paths": [s["raw_path"] for s in app.scopes]}
     why = ""
     out = conn.take()
-    if oi in (0, 1, 2, 3):
+    if oi in (0, 1, 2, 3, 8, 9, 10):
         c = st["h2"]
-        if oi in (2, 3):
+        if oi in (2, 3, 8, 9, 10):
             head = split_h1_head(out)
             if head is None or head[0] != 101:
                 return obs, f"h2c upgrade not answered 101: {out[:80]!r}", conn
             out = head[2]
-            if oi == 2:
+            if oi != 3:
                 conn.feed(c.take())  # client preface after the 101
-        c.feed(out)
-        conn.feed(c.take())
-        c.feed(conn.take())
+        for _ in range(4):  # windows of 20 bytes need a few rounds of WINDOW_UPDATEs
+            c.feed(out)
+            conn.feed(c.take())
+            out = conn.take()
         want = {1: b"path=/one;v=2;body=" if oi < 2 else b"path=/up;v=2;body="}
-        if oi != 2:
+        if oi in (0, 1, 3):
             want[3] = b"path=/three;v=2;body=payload"
         for sid, payload in want.items():
             s_ = c.streams.get(sid)
@@ -260,7 +266,7 @@ STRIDE = 4 if QUICK else 1
     witnesses=[{"oi": 2, "s": 5, "flavour": 0}, {"oi": 1, "s": 3, "flavour": 1}, {"oi": 4, "s": 30, "flavour": 0}],
     budget={"quick": 150, "thorough": 600},
     per_path=60,
-    bounds="8 openings (ALPN h2, prior-knowledge preface, h2c upgrade with settings, h2c upgrade with the next stream in the same flight, websocket upgrade followed by a frame, plain request, h2c upgrade with a body, two pipelined requests) x every two-way split of the first flight (quick: every 4th offset) x both worker flavours",
+    bounds="11 openings (ALPN h2, prior-knowledge preface, h2c upgrade with settings, h2c upgrade with the next stream in the same flight, websocket upgrade followed by a frame, plain request, h2c upgrade with a body, two pipelined requests, h2c upgrade with an empty / absent / non-default HTTP2-Settings value) x every two-way split of the first flight (quick: every 4th offset) x both worker flavours",
     encodes=["hypercorn/protocol/__init__.py::ProtocolWrapper.handle", "hypercorn/protocol/h11.py::H11Protocol._check_protocol", "hypercorn/protocol/h2.py::H2Protocol.initiate",
              "hypercorn/protocol/h11.py::H11Protocol._create_stream", "hypercorn/protocol/h11.py::H11WSConnection.__init__"],
     stubs=["tier B runtime", "ALPN is an attribute of the fake transport", "independent h11/h2/wsproto clients"],
